@@ -625,6 +625,22 @@ def _cache_helpers(tree, problems):
     return ok, swallow
 
 
+def _cache_key(problems):
+    """pyct/cache.py UnboundInstanceCache._get_key: a bound method is keyed by its __func__ (the receiver is dropped)."""
+    tree = ast.parse(_read('malt/pyct/cache.py'))
+    c = _cls(tree, 'UnboundInstanceCache')
+    if c is not None:
+        for st in c.body:
+            if isinstance(st, ast.FunctionDef) and st.name == '_get_key':
+                body = [ast.unparse(x) for x in _strip_doc(st.body)]
+                if body == ['if inspect.ismethod(entity):\n    return entity.__func__', 'return entity']:
+                    return True
+                if body == ['return entity']:
+                    return False
+    problems.append('cache.UnboundInstanceCache._get_key has an unrecognised shape')
+    return False
+
+
 def _strict(tree, problems):
     fn = _func(tree, 'is_autograph_strict_conversion_mode')
     want = "return int(os.environ.get('AUTOGRAPH_STRICT_CONVERSION', '0')) > 0"
@@ -661,6 +677,7 @@ def gen_policy(problems):
     cache_ok, cache_swallow = _cache_helpers(ctree, problems)
     strict_var = _strict(atree, problems)
     artifact_ok = _artifact(atree, problems)
+    key_drops_receiver = _cache_key(problems)
 
     # the rule kind an entry of CONVERSION_RULES *acts as* (class -> action returned by get_action)
     def acts_as(kind):
@@ -809,6 +826,8 @@ def gen_policy(problems):
     A('def cacheKeyedByEntityAndOptions : Bool := %s' % _b(cache_ok))
     A('def cacheSwallowsTypeError : Bool := %s' % _b(cache_swallow))
     A('def artifactIsAttributeTest : Bool := %s' % _b(artifact_ok))
+    A('/-- `UnboundInstanceCache._get_key`: a bound method is keyed by its `__func__`. -/')
+    A('def cacheKeyDropsReceiver : Bool := %s' % _b(key_drops_receiver))
     A('')
     A('end Malt.Gen.Policy')
     return '\n'.join(L) + '\n'
